@@ -17,7 +17,7 @@ func init() {
 	Register(&Profile{Prop: "C04", Fatal: []string{"C04."}, Run: runC04, Core: coreC04})
 }
 
-const c04NumMut = 22
+const c04NumMut = 23
 
 func coreC04(tier string) []RunSpec {
 	var out []RunSpec
@@ -143,6 +143,13 @@ func (m *MW) StepForge(forceMut, forceVia int) {
 	case 15: // Y itself as C (k=1)
 		pj["C"] = hY(p.Secret)
 		desc = "C = Y"
+	case 22: // -C: the same x, the other y (parity byte of the compressed encoding flipped)
+		if strings.HasPrefix(p.C, "02") {
+			pj["C"] = "03" + p.C[2:]
+		} else {
+			pj["C"] = "02" + p.C[2:]
+		}
+		desc = "-C (parity byte flipped)"
 	case 21: // the genuine point followed by characters that are not part of any point encoding
 		pj["C"] = p.C + []string{"zz", "0", " ", "\n", "0x", "--", "g"}[m.T.Choose("forge.tail", 7)]
 		desc = "C with a trailing non-point tail"
